@@ -714,7 +714,10 @@ func (c *Conn) WriteMessage(messageType MessageType, data []byte) error {
 		sendCompress := compress
 		for len(data) > 0 {
 			n := len(data)
-			if n > c.Engine.MaxWebsocketFramePayloadSize {
+			// control frames must not be fragmented (RFC 6455 5.5); they
+			// are at most 125 bytes anyway.
+			isControl := messageType == PingMessage || messageType == PongMessage || messageType == CloseMessage
+			if n > c.Engine.MaxWebsocketFramePayloadSize && !isControl {
 				n = c.Engine.MaxWebsocketFramePayloadSize
 			}
 			err := c.writeFrame(messageType, sendOpcode, n == len(data), data[:n], sendCompress)
